@@ -204,13 +204,12 @@ Definition lf_of (rs : list mrect) : lf_boxes := fold_left lf_step rs (mkLf None
 (* [trunk_defined] is a separate flag in the code; it is set exactly when a
    trunk has been stored *)
 
-Definition is_float (s : scalar) : bool := match s with SNum _ false => true | _ => false end.
-
-(* Model.fix: the degree written by get_netlist (0 soft, 1 hard, 2 fixed) *)
+(* Model.fix: the degree written by get_netlist (0 soft, 1 hard, 2 fixed).
+   netlist_to_utils hands the branch positions of a hard module as float offsets
+   from the trunk (repository commit ac6e029), so only the trunk position of a
+   fixed module raises the degree to 2. *)
 Definition lf_degree (m : module) (branches : list mrect) : nat :=
-  if m_fixed m then 2%nat
-  else if m_hard m then (if forallb (fun r => is_float (mr_x r)) branches then 1%nat else 2%nat)
-  else 0%nat.
+  if m_fixed m then 2%nat else if m_hard m then 1%nat else 0%nat.
 
 Definition float4 (r : mrect) : ytree :=
   YList [yfloat (sval (mr_x r)); yfloat (sval (mr_y r)); yfloat (sval (mr_w r)); yfloat (sval (mr_h r))].
